@@ -416,8 +416,25 @@ int scan_from_with(var input, int pos, const char* fmt, var args) {
       }
       
       else if (strchr("diouxX", *fmt)) {
+        /* The C type stored through depends on the length modifier */
         long tmp = 0;
-        int err = format_from(input, pos, fmt_buf, &tmp, &off);
+        int err = 0;
+        bool sgn = *fmt is 'd' or *fmt is 'i';
+        if (strpbrk(fmt_buf, "ljzt")) {
+          err = format_from(input, pos, fmt_buf, &tmp, &off);
+        } else if (strstr(fmt_buf, "hh")) {
+          char ctmp = 0;
+          err = format_from(input, pos, fmt_buf, &ctmp, &off);
+          tmp = sgn ? (long)(signed char)ctmp : (long)(unsigned char)ctmp;
+        } else if (strchr(fmt_buf, 'h')) {
+          short stmp = 0;
+          err = format_from(input, pos, fmt_buf, &stmp, &off);
+          tmp = sgn ? (long)stmp : (long)(unsigned short)stmp;
+        } else {
+          int itmp = 0;
+          err = format_from(input, pos, fmt_buf, &itmp, &off);
+          tmp = sgn ? (long)itmp : (long)(unsigned int)itmp;
+        }
         if (err < 1) { throw(FormatError, "Unable to input Int!"); }
         pos += off;
         assign(a, $I(tmp));
